@@ -349,7 +349,14 @@ def extract_unit(u: Unit, rewrite_log: list) -> List[Piece]:
         else:
             a = find_unique(m, u.anchor, u.name, lo, hi)
             a = src.rfind("\n", 0, a) + 1
-        if u.block_end == "@matching_brace":
+        if u.block_end == "@for_end":
+            # the block runs from the anchor statement through the end of the FIRST `for` loop that follows it
+            fm = re.compile(r"(?<![A-Za-z0-9_])for\s").search(m, a)
+            ob = m.find("{", fm.end())
+            e = match_brace(m, ob) + 1
+            nl = src.find("\n", e)
+            e = len(src) if nl < 0 else nl + 1
+        elif u.block_end == "@matching_brace":
             # the block is ONE braced statement (e.g. a `match`): it ends with the brace matching the first `{`
             ob = m.find("{", a)
             e = match_brace(m, ob) + 1
@@ -488,6 +495,13 @@ def _splice_body(u: Unit, body: str, file: str, first_line: int) -> List[Piece]:
                 raise LostAnchor("%s: loop #%d not found for after_loop hint" % (u.name, ordinal))
             close = match_brace(m, heads[ordinal - 1][1])
             inserts.append((close + 1, "\n" + text.rstrip() + "\n", "%s:hint-after-loop%d" % (u.name, ordinal)))
+            continue
+        if where == "loop_start":
+            # first position inside the body of loop N: independent of the text of any statement
+            ordinal = int(stmt)
+            if ordinal < 1 or ordinal > len(heads):
+                raise LostAnchor("%s: loop #%d not found for loop_start hint" % (u.name, ordinal))
+            inserts.append((heads[ordinal - 1][1] + 1, "\n" + text.rstrip() + "\n", "%s:hint-loop-start%d" % (u.name, ordinal)))
             continue
         k = find_unique(body, stmt, "%s (hint anchor)" % u.name)
         if where == "before":
